@@ -209,11 +209,38 @@ def judge(ctx, tree, nontrivial, samples):
         samples.append(rep["sugared"])
 
 
+def directed_trees():
+    """hand-written sugared sheets for the clause "an edge that names a block leaves from every still-unconnected ordinary
+    exit of the block but never from a hard exit": inside a block / a loop body, a row whose blank-condition edge goes to a
+    hard_exit row, written before or after the conditional rows that turn the row into a decision, and a row that leaves the
+    block afterwards (by name, or as the next row)"""
+    E = sheetgen.edge
+    out = []
+    for kind in ("block", "for"):
+        for src in ("send_message", "wait_for_response"):
+            for hard_first in (True, False):
+                for by_name in (True, False):
+                    a = {"type": src, "row_id": "B1_a", "edges": [E()]}
+                    if src == "send_message":
+                        a["arg"] = "Question"
+                    hard = ("row", {"type": "hard_exit", "row_id": "", "edges": [E("B1_a")]})
+                    yes = ("row", {"type": "send_message", "row_id": "B1_y", "edges": [E("B1_a", value="yes")], "arg": "Yes branch"})
+                    body = [("row", a)] + ([hard, yes] if hard_first else [yes, hard])
+                    head = {"row_id": "B1" if by_name else "", "edges": [E("r0")]}
+                    blk = ("block", head, body) if kind == "block" else ("for", head, "x0", None, ["one"], ["one"], body)
+                    after = {"type": "send_message", "row_id": "r9", "edges": [E("B1" if by_name else "")], "arg": "After block"}
+                    out.append([("row", {"type": "send_message", "row_id": "r0", "edges": [E("start")], "arg": "Intro"}), blk, ("row", after)])
+    return out
+
+
 def run(ctx):
     thorough = ctx.tier == "thorough"
     n = (12000 if thorough else 700) * ctx.scale
     nontrivial, samples = set(), []
     dist = {"with_loop": 0, "with_block": 0, "with_include_if": 0, "nested": 0}
+    for tree in directed_trees():
+        ctx.count("directed_block_exit_sheets")
+        judge(ctx, tree, nontrivial, samples)
     for i in range(n):
         rng = ctx.rng
         g = sheetgen.SugarGen(rng, wf=True, special_text=rng.random() < 0.4, empty_loops=rng.random() < 0.3,
